@@ -51,6 +51,10 @@ struct ValueStorage {
 	bool operator < (const ValueStorage & o) const { return v < o.v; }
 };
 
+// a digester taking its argument by value (a user may supply any callable class template): building an id from a temporary must
+// still store the value the caller supplied
+template <typename T> struct DigestByValue { std::size_t operator()(T v) const { return std::hash<T>()(v); } };
+
 template <std::size_t S> struct Sized { char bytes[S]; };
 template <std::size_t S> struct SizedNT { char bytes[S]; SizedNT() {} SizedNT(const SizedNT & o) { bytes[0] = o.bytes[0]; } ~SizedNT() {} };
 
@@ -172,6 +176,12 @@ void useUtils()
 		(void)(va == vb); (void)(va < vb); (void)std::hash<IdV>()(va);
 		eventpp::EventDispatcher<IdV, void (), PoliciesMapOrdered> d2; d2.appendListener(1, []() {}); d2.dispatch(IdV(1));
 		eventpp::EventDispatcher<IdV, void ()> d3; d3.appendListener(1, []() {}); d3.dispatch(IdV(1));
+		using IdB = eventpp::AnyId<DigestByValue, ValueStorage>;
+		std::string ls("y"); const std::string cs("z");
+		IdB ba(std::string("x")), bb(ls), bc(cs), bd(7);
+		(void)(ba == bb); (void)(bb < bc); (void)std::hash<IdB>()(bd);
+		eventpp::EventDispatcher<IdB, void (), PoliciesMapOrdered> d4; d4.appendListener(std::string("x"), []() {}); d4.dispatch(ls);
+		eventpp::EventDispatcher<IdB, void ()> d5; d5.appendListener(std::string("x"), []() {}); d5.dispatch(IdB(cs));
 	}
 }
 
